@@ -31,6 +31,8 @@
 (* L1: reported iff P # d and neither path(P) nor name(P) is in the union  *)
 (* of the lists.  Deviations: FirstLineOnly, NoNameMatch, NoDedup,         *)
 (* NoUnalias (a type reference spelled through an alias is invisible),     *)
+(* KeysNotVisited (keys of literal elements are not walked), GroupDocLeaks  *)
+(* (PT's doc reaches the undocumented next spec of its type group),         *)
 (* SamePosOnce (two reports at one expression start collapse into one),    *)
 (* MethodKeyWithoutType (the allow decision of a method is cached under    *)
 (* its bare name: S.PM decides for S2.PM and vice versa),                  *)
@@ -47,7 +49,7 @@ VARIABLES prog, fi, ci, ph, reported, diags, memo    \* memo: the allow decision
 vars == <<prog, fi, ci, ph, reported, diags, memo>>
 
 Shapes == {"none", "bare", "name", "path", "lastelem", "other", "two_in", "two_out", "dup"}
-Refs == {"callF", "funcValue", "methCall", "methCallPS", "methCallS2", "chainCall", "aliasPlain", "methCallHidden", "typeVarHidden", "methCallVar", "methValue", "methCallPromoted", "methValuePromoted", "typeLit", "typeVar", "typeField", "typeParam", "typeResult",
+Refs == {"callF", "funcValue", "methCall", "methCallPS", "methCallS2", "chainCall", "aliasPlain", "mapKeyCall", "typeLitPG", "methCallHidden", "typeVarHidden", "methCallVar", "methValue", "methCallPromoted", "methValuePromoted", "typeLit", "typeVar", "typeField", "typeParam", "typeResult",
          "typeLit2", "plain"}
 TypeRefs == {"typeLit", "typeVar", "typeField", "typeParam", "typeResult", "typeLit2"}
 HiddenRefs == {"methCallHidden", "typeVarHidden"}   \* d.Default.HM() on the unexported type hid; d.State, an exported alias of the unexported type state
@@ -87,16 +89,18 @@ Lines(al, P) ==
 
 Union(ls) == UNION {{ls[i][j] : j \in 1..Len(ls[i])} : i \in 1..Len(ls)}
 
+\* mapKeyCall: map[int]int{d.PF(n): 1} - the reference stands in the key position of a literal element -> PKGO02
+\* typeLitPG: a literal of d.PG, the undocumented spec that follows the annotated PT inside one `type ( ... )` group: never reported
 \* aliasPlain: var v Hdr with `type Hdr = map[string][]string` declared in the using package - an alias of a type that is not a
 \* defined type, unrelated to every annotation: never reported
 \* methCallS2: s2.PM() - a method called PM like S.PM, on another type S2, restricted to d itself (bare @packageonly)
 \* chainCall: d.NewPS().PSM() - two references in one expression: the function NewPS and the method PSM, both with shape al
-ShapeOf(r0, al) == LET r == Base(r0) IN IF r \in {"typeLit2", "methCallS2"} THEN "bare" ELSE IF r \in {"plain", "aliasPlain"} THEN "none" ELSE al
+ShapeOf(r0, al) == LET r == Base(r0) IN IF r \in {"typeLit2", "methCallS2"} THEN "bare" ELSE IF r \in {"plain", "aliasPlain", "typeLitPG"} THEN "none" ELSE al
 
 Allowed(P, ls) == P = "d" \/ PathOf(P) \in Union(ls) \/ NameOf(P) \in Union(ls)
 
 CodeOf(r0) == LET r == Base(r0) IN
-             CASE r \in {"callF", "funcValue"} -> "PKGO02" [] r = "chainCall" -> "PKGO03"
+             CASE r \in {"callF", "funcValue", "mapKeyCall"} -> "PKGO02" [] r = "chainCall" -> "PKGO03"
                [] r \in {"methCall", "methCallPS", "methCallS2", "methCallHidden", "methCallVar", "methValue", "methCallPromoted", "methValuePromoted"} -> "PKGO03"
                [] r \in TypeRefs \cup {"typeVarHidden"} -> "PKGO01" [] OTHER -> "none"
 
@@ -105,7 +109,7 @@ Code2Of(r) == IF r = "chainCall" THEN "PKGO02" ELSE "none"
 Cand2(r, al, P) == IF Code2Of(r) # "none" /\ ShapeOf(r, al) # "none" /\ ~Allowed(P, Lines(ShapeOf(r, al), P)) THEN Code2Of(r) ELSE "none"
 Cand(r, al, P) == IF ShapeOf(r, al) # "none" /\ CodeOf(r) # "none" /\ ~Allowed(P, Lines(ShapeOf(r, al), P)) THEN CodeOf(r) ELSE "none"
 
-TypeOf(r) == IF Base(r) = "typeLit2" THEN "PT2" ELSE IF r = "typeVarHidden" THEN "state" ELSE "PT"
+TypeOf(r) == IF Base(r) = "typeLit2" THEN "PT2" ELSE IF r = "typeVarHidden" THEN "state" ELSE IF r = "typeLitPG" THEN "PG" ELSE "PT"
 
 Keys(p) == UNION {{<<f, i>> : i \in 1..Len(p.files[f])} : f \in 1..Len(p.files)}
 Reported(p, f, i) ==
@@ -159,6 +163,8 @@ Visit ==
          code == IF "MethodKeyWithoutType" \in Deviations /\ pmRef THEN (IF decided = "deny" THEN "PKGO03" ELSE "none")
                  ELSE IF "NoUnalias" \in Deviations /\ ViaAlias(r) THEN "none"
                  ELSE IF "TypeHidesMethods" \in Deviations /\ r = "methCallPS" THEN "none"
+                 ELSE IF "KeysNotVisited" \in Deviations /\ r = "mapKeyCall" THEN "none"
+                 ELSE IF "GroupDocLeaks" \in Deviations /\ r = "typeLitPG" /\ ~IndexAllowed(prog.pkg, IndexLines(prog.al, prog.pkg)) /\ prog.al # "none" THEN "PKGO01"
                  ELSE IF "ExportedOnly" \in Deviations /\ r \in HiddenRefs /\ prog.pkg # "d" THEN "none"
                  ELSE IF sh # "none" /\ CodeOf(r) # "none" /\ ~IndexAllowed(prog.pkg, IndexLines(sh, prog.pkg)) THEN CodeOf(r) ELSE "none"
          \* SamePosOnce: two diagnostics anchored at the same expression start are reported once (the later one is dropped)
